@@ -83,7 +83,10 @@ class Ctx:
         self.seed = seed
         self.t0 = time.time()
         self.rng = random.Random(seed)
-        self.build = VERIF / "build" / pid
+        # a run against a scratch copy (VERIF_REPO) gets its own build directory: it may run beside a run on /repo or beside
+        # another scratch run of the same property
+        scratch = "" if str(REPO) == "/repo" else "_" + hashlib.md5(str(REPO).encode()).hexdigest()[:8]
+        self.build = VERIF / "build" / (pid + scratch)
         self.build.mkdir(parents=True, exist_ok=True)
         self.cov = {"evaluations": 0, "distinct_nontrivial": 0, "rule": "", "samples": [],
                     "obligations": 0, "discharged": 0, "checker_cmd": "", "trusted_base": []}
